@@ -20,6 +20,8 @@ def run(ctx):
               "rotation_matrix -> array_like(like=<float>) yields an object "
               "array and the front-page example raises")
     H.rule_row_convention(ctx)
+    H.rule_g2(ctx)
+    H.rule_odd1(ctx)
     u1(ctx, ENTRIES, min_functions=15)
     ctx.r.assume("every numerical clause (origin -> p, distances along "
                  "geodesics, law of cosines, polygon angles) is not decided")
